@@ -44,7 +44,7 @@ ASSUMPTIONS = [
     "wrapped locations (inner paths resolved through mount points) are not generated: no container runtime in the sandbox",
     "no command-channel fault other than the death of the persistent shell between commands is injected: the statement has no fault in it",
 ]
-TIERS = {"quick": {"runs": 600, "budget_s": 100}, "thorough": {"runs": 60000, "budget_s": 480, "chunk": 8, "params": {"big": True}}}
+TIERS = {"quick": {"runs": 600, "budget_s": 100, "chunk": 4}, "thorough": {"runs": 60000, "budget_s": 480, "chunk": 8, "params": {"big": True}}}
 STALL_S = 600   # real child processes: a chunk may need minutes on a loaded machine
 SIM_KW = {"max_steps": 2_000_000, "wall_cap": 60.0, "max_vtime": 1e7}
 
